@@ -185,6 +185,7 @@ def cifar(case):
   h, w = case['h'], case['w']
   imgs = _images(case.get('seed', 0))
   evals = 0
+  seam_cap = []
   for name in ([case['image']] if 'image' in case else list(imgs)):
     nc = dict(case, image=name)
     batch = np.stack([imgs[name], imgs['random']])
@@ -216,7 +217,12 @@ def cifar(case):
             with seams.patched(ds, np=seams.np_proxy(None, uniform=uniform, randint=randint)):
               got = ds.preprocess_image_tff(batch, h, w, distort=True)
             if sorted(calls) != ['randint', 'uniform']:
-              raise HarnessError('C20 cifar RNG seam: calls %r' % calls)
+              # the implementation draws its crop/flip differently: offsets cannot be scripted; only shape and
+              # "is a standardised sub-window at SOME offset" can still be judged
+              seam_cap.append(calls)
+              require(got.shape == (2, h, w, 3), 'training crop does not have the requested shape', [2, h, w, 3],
+                      list(got.shape), case=dict(nc, offset=[i, j, flip]))
+              continue
             sub = batch[:, i:i + h, j:j + w, :]
             if flip:
               sub = sub[:, :, ::-1, :]
@@ -227,7 +233,10 @@ def cifar(case):
                     'training crop is not the standardised sub-window at the drawn offset', None, None,
                     case=dict(nc, offset=[i, j, flip]))
             evals += 1
-  return {'evals': evals, 'nontrivial': True, 'outcome': [h, w], 'keys': [[h, w, n] for n in imgs]}
+  info = {'evals': evals, 'nontrivial': True, 'outcome': [h, w], 'keys': [[h, w, n] for n in imgs]}
+  if seam_cap:
+    info['cap'] = 'numpy RNG seam of cifar100 not reached as expected (%r): offsets not scripted' % (seam_cap[0],)
+  return info
 
 
 def cifar_invalid(case):
